@@ -123,6 +123,8 @@ func (x *Exec) evalSpecBuiltin(c *evalCtx, fn string, a []Val) (Val, bool, error
 		return strV(app("b58", SStr, s(0))), true, nil
 	case "hmacSum":
 		return strV(app("hmacSum", SStr, s(0), s(1))), true, nil
+	case "aeadEnc":
+		return strV(app("aeadEnc", SStr, s(0), s(1), s(2), s(3))), true, nil
 	case "aeadOk":
 		return bval(app("aeadOk", SBool, s(0), s(1), s(2))), true, nil
 	case "aeadPt":
@@ -139,22 +141,50 @@ func (x *Exec) evalSpecBuiltin(c *evalCtx, fn string, a []Val) (Val, bool, error
 		return strV(app("pkcs8", SStr, s(0))), true, nil
 	case "hdr":
 		return strV(x.hdr(a[0].T)), true, nil
-	case "unM":
-		// unM("types.X", bytes): snapshot reference of the decoded message
-		tn := strings.Trim(a[0].T.S, `"`)
-		mt := x.lookupNamed(tn)
-		if mt == nil {
-			return Val{}, true, fmt.Errorf("unM: unknown type %s", tn)
+	case "blobCt":
+		// ciphertext bytes inside a marshaled BlobInfo
+		bt := x.blobType()
+		ctf := fieldByName(bt, "Ciphertext")
+		_ = ctf
+		r := x.decFn(decPrefix(bt)+"!Ciphertext", SStr, s(0))
+		x.Reg.Axiom("decEmpty:"+decPrefix(bt)+"!Ciphertext", "(= ("+sym(decPrefix(bt)+"!Ciphertext")+" \"\") \"\")")
+		return strV(r), true, nil
+	case "wfMsg":
+		// wfMsg(msgOrTypeName, content)
+		if a[0].T.Sort == SStr {
+			mt := x.lookupNamed(strings.Trim(a[0].T.S, `"`))
+			if mt == nil {
+				return Val{}, true, fmt.Errorf("wfMsg: unknown type %s", a[0].T.S)
+			}
+			pt := types.NewPointer(mt)
+			x.declareTagDistinct(pt)
+			return bval(x.wfMsg(x.typeTag(pt), s(1))), true, nil
 		}
-		return scalar(x.unM(mt, x.bytesOf(st, a[1])), types.NewPointer(mt)), true, nil
+		return bval(x.wfMsg(x.msgTag(a[0]), s(1))), true, nil
+	case "decodedFrom":
+		// decodedFrom(msg, content): msg holds exactly the message encoded by content
+		if t, ref, ok := msgArg(a[0]); ok && !isTimestampType(t) {
+			return bval(x.sameAsDecoded(st, t, decPrefix(t), s(1), ref, 0)), true, nil
+		}
+		x.registerPrefix(wirePrefix, types.Typ[types.String])
+		x.declIfaceFns()
+		return bval(Eq(x.readComp(st, wirePrefix, SStr, app("payl", SInt, a[0].T)), s(1))), true, nil
+	case "encodes":
+		// encodes(content, msg): content is an encoding of msg
+		if t, ref, ok := msgArg(a[1]); ok && !isTimestampType(t) {
+			return bval(And(x.wfMsg(x.msgTag(a[1]), s(0)), x.sameAsDecoded(st, t, decPrefix(t), s(0), ref, 0))), true, nil
+		}
+		x.ufun("encodesObj", []string{SInt, SStr}, SBool)
+		x.declIfaceFns()
+		return bval(And(x.wfMsg(x.msgTag(a[1]), s(0)), app("encodesObj", SBool, app("payl", SInt, a[1].T), s(0)))), true, nil
+	case "curId", "curKey", "prevId", "prevKey":
+		x.ufun("kp!"+fn, []string{SInt}, SStr)
+		return strV(app(sym("kp!"+fn), SStr, a[0].T)), true, nil
+	case "curOk", "prevOk":
+		x.ufun("kp!"+fn, []string{SInt}, SBool)
+		return bval(app(sym("kp!"+fn), SBool, a[0].T)), true, nil
 	}
 	return Val{}, false, nil
-}
-
-func (x *Exec) unM(t types.Type, content Term) Term {
-	fn := x.ufun("unM!"+typeName(t), []string{SStr}, SInt)
-	x.Reg.Axiom("unMpos:"+typeName(t), "(forall ((s String)) (! (> ("+fn+" s) 0) :pattern (("+fn+" s))))")
-	return app(fn, SInt, content)
 }
 
 // hdr(k) = fmt.Sprintf("%02d-", k)
@@ -337,24 +367,7 @@ func init() {
 	})
 	// ---- module functions specified directly (reflection / hashing inside)
 	reg("nodeenrollment.IsNil", func(x *Exec, st *State, c *CallCtx) []Outcome {
-		a := c.Args[0]
-		x.declIfaceFns()
-		if a.K == VIface && a.Dyn != nil {
-			switch a.Dyn.Underlying().(type) {
-			case *types.Pointer, *types.Map, *types.Chan, *types.Slice:
-				p := a.Payload
-				if p.K == VSlice {
-					return one(st, bval(Eq(p.Ref, IntT(0))))
-				}
-				return one(st, bval(Eq(p.T, IntT(0))))
-			default:
-				return one(st, bval(BoolT(false)))
-			}
-		}
-		// unknown dynamic type: nil interface, or a nil pointer-like payload
-		x.ufun("nilPayloadKind", []string{SInt}, SBool)
-		isn := Or(Eq(a.T, IntT(0)), And(app("nilPayloadKind", SBool, app("dyntag", SInt, a.T)), Eq(app("payl", SInt, a.T), IntT(0))))
-		return one(st, bval(isn))
+		return one(st, bval(x.isNilTerm(c.Args[0])))
 	})
 	reg("nodeenrollment.KeyIdFromPkix", func(x *Exec, st *State, c *CallCtx) []Outcome {
 		declCrypto(x)
@@ -472,6 +485,31 @@ func init() {
 	})
 }
 
+// isNilTerm: nodeenrollment.IsNil(v): nil interface, or nil pointer / map / chan / slice inside.
+func (x *Exec) isNilTerm(a Val) Term {
+	x.declIfaceFns()
+	if a.K == VIface && a.Dyn != nil {
+		switch a.Dyn.Underlying().(type) {
+		case *types.Pointer, *types.Map, *types.Chan, *types.Slice:
+			p := a.Payload
+			if p.K == VSlice {
+				return Eq(p.Ref, IntT(0))
+			}
+			return Eq(p.T, IntT(0))
+		default:
+			return BoolT(false)
+		}
+	}
+	if a.K == VSlice {
+		return Eq(a.Ref, IntT(0))
+	}
+	if a.K == VScalar {
+		return Eq(a.T, IntT(0))
+	}
+	x.ufun("nilPayloadKind", []string{SInt}, SBool)
+	return Or(Eq(a.T, IntT(0)), And(app("nilPayloadKind", SBool, app("dyntag", SInt, a.T)), Eq(app("payl", SInt, a.T), IntT(0))))
+}
+
 func isErrorLike(v Val) bool {
 	if v.K != VIface {
 		return false
@@ -568,24 +606,44 @@ func msgArg(v Val) (types.Type, Term, bool) {
 	return nil, Term{}, false
 }
 
+// wfMsg(tag, content): content is a well-formed encoding of a message of the type with that tag.
+func (x *Exec) wfMsg(tag Term, content Term) Term {
+	x.ufun("wfMsg", []string{SInt, SStr}, SBool)
+	return app("wfMsg", SBool, tag, content)
+}
+
+const wirePrefix = "F!proto.Message!$wire" // ghost: wire content a message object was last decoded from / encoded to
+
+func (x *Exec) msgTag(v Val) Term {
+	x.declIfaceFns()
+	if v.K == VIface && v.Dyn != nil {
+		x.declareTagDistinct(v.Dyn)
+		return x.typeTag(v.Dyn)
+	}
+	return app("dyntag", SInt, v.T)
+}
+
 func protoMarshal(x *Exec, st *State, c *CallCtx) []Outcome {
 	t, ref, ok := msgArg(c.Args[0])
 	bt := c.ResT.At(0).Type()
 	fail, fe := x.errFork(st, "marshal")
 	failOut := Outcome{St: fail, Res: []Val{scalar(IntT(0), bt), fe}}
 	content := x.fresh(st, "marshaled", SStr)
+	tag := x.msgTag(c.Args[0])
+	st.assume(x.wfMsg(tag, content))
 	if ok {
 		if isTimestampType(t) {
 			x.ufun("unMts", []string{SStr}, SInt)
 			st.assume(Eq(app("unMts", SInt, content), x.tsTime(st, ref)))
 		} else {
-			// a nil message marshals to the empty string
-			snap := x.deepCopy(st, t, ref, 0)
-			st.assume(Implies(Neq(ref, IntT(0)), Eq(x.unM(t, content), snap)))
 			st.assume(Implies(Eq(ref, IntT(0)), Eq(content, StrT(""))))
+			st.assume(Implies(Neq(ref, IntT(0)), x.sameAsDecoded(st, t, decPrefix(t), content, ref, 0)))
 		}
 	} else {
-		x.note(x.Assumed, "proto.Marshal of a statically unknown message type in "+funcKey(c.Fr.Fn)+": result unrelated to the message")
+		// statically unknown message type: remember only the relation object <-> wire content
+		x.ufun("encodesObj", []string{SInt, SStr}, SBool)
+		x.declIfaceFns()
+		st.assume(app("encodesObj", SBool, app("payl", SInt, c.Args[0].T), content))
 	}
 	b := x.newBytes(st, content, bt)
 	return []Outcome{{St: st, Res: []Val{b, nilErr()}}, failOut}
@@ -593,21 +651,28 @@ func protoMarshal(x *Exec, st *State, c *CallCtx) []Outcome {
 
 func protoUnmarshal(x *Exec, st *State, c *CallCtx) []Outcome {
 	t, ref, ok := msgArg(c.Args[1])
-	if !ok {
-		x.note(x.Outside, "proto.Unmarshal into a statically unknown message type in "+funcKey(c.Fr.Fn))
-		return x.havocCall(st, c, "proto.Unmarshal(unknown)")
-	}
 	content := x.bc(st, c.Args[0])
+	tag := x.msgTag(c.Args[1])
 	fail, fe := x.errFork(st, "unmarshal")
+	fail.assume(Not(x.wfMsg(tag, content)))
+	st.assume(x.wfMsg(tag, content))
+	x.registerPrefix(wirePrefix, types.Typ[types.String])
+	if !ok {
+		x.declIfaceFns()
+		obj := app("payl", SInt, c.Args[1].T)
+		x.writeComp(st, wirePrefix, SStr, obj, content)
+		x.note(x.Assumed, "proto.Unmarshal into a statically unknown message type in "+funcKey(c.Fr.Fn)+": only the relation object <-> wire content is tracked")
+		return []Outcome{{St: st, Res: []Val{nilErr()}}, {St: fail, Res: []Val{fe}}}
+	}
 	// a failed Unmarshal leaves the target in an arbitrary state
 	x.havocMsg(fail, t, ref)
 	if isTimestampType(t) {
 		x.ufun("unMts", []string{SStr}, SInt)
 		x.tsSet(st, ref, app("unMts", SInt, content))
 	} else {
-		src := x.unM(t, content)
-		x.copyInto(st, t, ref, src)
+		x.decodeInto(st, t, decPrefix(t), content, ref, 0)
 	}
+	x.writeComp(st, wirePrefix, SStr, ref, content)
 	return []Outcome{{St: st, Res: []Val{nilErr()}}, {St: fail, Res: []Val{fe}}}
 }
 
